@@ -20,6 +20,10 @@ set_option linter.unusedTactic false
 namespace ImathVerif.C09
 open ImathVerif Matrix
 
+/-- closes `extracted decision tree = hand-written spec` goals after both sides are unfolded -/
+macro "tree_eq" : tactic =>
+  `(tactic| (split_ifs <;> first | rfl | (simp only [*, if_true, if_false]; done) | (simp [*]; done) | (simp_all; done)))
+
 /-! ## rotations -/
 section Rot
 variable {α : Type} [CommRing α]
@@ -342,7 +346,7 @@ theorem alignZ_eq_spec (tmin : α) (sqrt : α → α) (t u : V3 α) :
   simp only [Gen.Frame.alignZAxisWithTargetDir, alignZSpec, nrm, cross, frameM44]
   generalize Gen.V3.length tmin sqrt = len
   simp only [mul_zero, zero_mul, mul_one, one_mul, sub_zero, zero_sub, sub_self, zero_div]
-  split_ifs <;> first | rfl | simp_all
+  split_ifs <;> first | rfl | (simp_all; done)
 
 theorem cross_zero_left (t : V3 α) : cross (⟨0, 0, 0⟩ : V3 α) t = ⟨0, 0, 0⟩ := by simp [cross]
 
